@@ -278,6 +278,9 @@ def points(draw):
         th = band_threshold(t, draw(st.sampled_from([FEPS, 1e-5])))
         x = (th if th is not None else 0.0) + draw(unif(-1e-3, 1e-3))
         x *= draw(st.sampled_from([1.0, -1.0]))
+    elif draw(st.booleans()):
+        # +-0.15 around the points where erfc / exp change regime far out in the tails (Phi -> smallest normal, Phi -> 0, pdf -> 0)
+        x = (draw(st.sampled_from([37.519379347, 38.4754, 38.58, 26.5])) + draw(unif(-0.15, 0.15))) * draw(st.sampled_from([1.0, -1.0]))
     else:
         x = draw(st.sampled_from([0.0, -0.0, 5e-324, -5e-324, 1e-300, -1e-300, X_MAX, -X_MAX, 38.5, -38.5]))
     return {"x": max(-X_MAX, min(X_MAX, x)), "t": t}
